@@ -51,12 +51,16 @@ CANDS_BIG = dict(CANDS)
 CANDS_BIG.update({"r/c": "dir", "r/c/__init__.py": "file", "r/c/d.py": "file", "r/a/x/w.py": "file", "r/a/mm.py": "file"})
 
 # a scanned package whose own name starts with (or equals) the root directory's name
-CANDS_PFX = {"r": "dir", "r/rb": "dir", "r/rb/m.py": "file", "r/rb/n.py": "file", "r/r": "dir", "r/r/m.py": "file", "r/r/n.py": "file", "r/k.py": "file"}
+# ... and files / directories whose names start with 'py' (the suffix '.py' must only be dropped at the end)
+CANDS_PFX = {"r": "dir", "r/rb": "dir", "r/rb/m.py": "file", "r/rb/n.py": "file", "r/r": "dir", "r/r/m.py": "file", "r/r/n.py": "file", "r/k.py": "file",
+             "r/rb/pyk.py": "file", "r/pyd": "dir", "r/pyd/q.py": "file"}
 
 LINESETS = {
     "qualified": {
         "r/a/m.py": ["import r.ab", "from r.a.x import u"],
-        "r/a/x/u.py": ["from .. import m", "import r.a.m as mm"],
+        # 'import r.a' from r.a.x.u names an ancestor of the importer: don't-care for the per-line oracle, but the
+        # sub-scan / full-scan comparison still requires both scans to agree on it
+        "r/a/x/u.py": ["from .. import m", "import r.a.m as mm", "import r.a"],
         "r/a_b/k.py": ["from r.a import m, zz"],
         "r/ab.py": ["import r.a_b.k"],
         "r/a/__init__.py": ["from . import m"],
@@ -77,6 +81,8 @@ LINESETS = {
         "r/rb/m.py": ["import rb.n", "from rb import n", "import r.rb.n"],
         "r/r/m.py": ["import r.n", "from r import n", "import r.r.n"],
         "r/rb/n.py": ["from rb.m import thing"],
+        "r/rb/pyk.py": ["import r.pyd.q", "from . import m"],
+        "r/pyd/q.py": ["import r.rb.pyk"],
     },
     "deep": {
         "r/a/x/y/v.py": ["from . import vv", "from ... import m", "import r.a.x.u"],
@@ -232,6 +238,7 @@ def instances(tier: str) -> list[dict]:
         out.append({"part": "scan", "mp": mp, "entry": "path", "lines": "parent-relative", "relational": False, "cap": CAPS[tier]})
     for mp in ("r/rb", "r/r"):
         out.append({"part": "scan", "mp": mp, "entry": "path", "lines": "prefixpkg", "relational": False, "cap": CAPS[tier]})
+    out.append({"part": "scan", "mp": "r", "entry": "path", "lines": "prefixpkg", "relational": False, "fixed": {"r/r": False}, "cap": CAPS[tier]})
     if tier == "thorough":
         big_fixed = {"r/notes.txt": False, "r/empty": False, "r/a_b": False}
         for mp in ("r", "r/a", "r/c", "r/a/x"):
